@@ -72,6 +72,8 @@ class Recorder:
         self._keep = []
         self.run_ord = {}        # run_start uid -> ordinal
         self.desc = {}           # descriptor uid -> (stream, run ordinal)
+        self.key_names = {}      # python run key -> name of the key in the program (option run_key_wrapper)
+        self.latest_desc = {}    # (run ordinal, stream) -> uid of the latest descriptor of that stream
         self.docs = []           # raw (name, doc) for property-specific oracles
         self.sched = []          # scheduling info (not part of the trace)
         self.groups = {}         # group names -> canonical g<n> (built-in plans use random group names)
@@ -94,7 +96,7 @@ class Recorder:
         obj = getattr(msg.obj, "name", "") if msg.obj is not None else ""
         if msg.command == "declare_stream" and msg.args:
             obj = getattr(msg.args[0], "name", "")          # Msg('declare_stream', None, *objs, name=...): (one object here)
-        run = "" if msg.run is None else str(msg.run)
+        run = "" if msg.run is None else self.key_names.get(msg.run, str(msg.run)) if isinstance(msg.run, int) else str(msg.run)
         a = msg_arg(msg)
         if msg.command in GROUP_CMDS and a != "":
             a = self.groups.setdefault(a, f"g{len(self.groups) + 1}")
@@ -141,6 +143,7 @@ class Recorder:
         elif name == "descriptor":
             ro = self.run_ord.get(doc["run_start"], 0)
             self.desc[doc["uid"]] = (doc.get("name", ""), ro)
+            self.latest_desc[(ro, doc.get("name", ""))] = doc["uid"]
             self.ev("doc", "descriptor", doc.get("name", ""), "", 0, ro, flag)
             self.ev("dsc", doc.get("name", ""), self.devmask(doc.get("data_keys", {})), "", 0, ro)
             for obj, c in sorted((doc.get("configuration") or {}).items()):
@@ -149,6 +152,8 @@ class Recorder:
                         self.ev("cfg", doc.get("name", ""), obj, "", int(v), ro)
         elif name == "event":
             stream, ro = self.desc.get(doc["descriptor"], ("?", 0))
+            if not flag and self.latest_desc.get((ro, stream), doc["descriptor"]) != doc["descriptor"]:
+                flag = "olddesc"        # C16: the stream has been described again since (e.g. after a configure)
             self.ev("doc", "event", stream, "", doc["seq_num"], ro, flag)
             import hashlib
             items = sorted((k, repr(v)) for k, v in doc.get("data", {}).items())
@@ -163,6 +168,8 @@ class Recorder:
                 self.ev("nev", stream, "", "", n, ro)
         elif name == "event_page":
             stream, ro = self.desc.get(doc["descriptor"], ("?", 0))
+            if not flag and self.latest_desc.get((ro, stream), doc["descriptor"]) != doc["descriptor"]:
+                flag = "olddesc"
             import hashlib
             for i, s in enumerate(doc["seq_num"]):
                 self.ev("doc", "event", stream, "", s, ro, flag)
@@ -187,7 +194,7 @@ class Recorder:
         RE.subscribe(self.doc_cb)
 
     # ---- instrumented main plan ----
-    def wrap_plan(self, gen, describe=None, log_cmd=False):
+    def wrap_plan(self, gen, describe=None, log_cmd=False, log_run=None):
         """transparent logging wrapper around the main plan generator: logs what every resume delivered and how the
         plan reacted.  `describe(value)` abstracts a sent value."""
         describe0 = describe or describe_value
@@ -217,7 +224,9 @@ class Recorder:
                     raise
                 # log_cmd: the yielded command is logged too (scenarios in which a preprocessor may drop the message before the
                 # engine sees it: the monitors then know what the plan is waiting for)
-                rec.ev("gen", inp, val, "yield", s4=(getattr(m, "command", "") if log_cmd else ""))
+                # log_run: {python run key the plan uses: index of the run key the message is meant for} (1 = "", 2 = "k1", 3 = "k2")
+                rec.ev("gen", inp, val, "yield", s4=(getattr(m, "command", "") if log_cmd else ""),
+                       n1=(log_run.get(getattr(m, "run", None), 0) if log_run else 0))
                 to_send, to_throw = None, None
                 try:
                     to_send = yield m
@@ -268,9 +277,9 @@ def msg_arg(msg):
     return ""
 
 
-DEV_ORDER = ["det", "det2", "mon1", "motor", "motor2", "pdet", "amotor", "apdet", "fly1", "fly2"]          # = DevOrderDef of the trace configurations
+DEV_ORDER = ["det", "det2", "mon1", "motor", "motor2", "pdet", "amotor", "apdet", "fly1", "fly2", "npdet"]          # = DevOrderDef of the trace configurations
 DEV_KEYS = {"det": {"det"}, "det2": {"det2"}, "mon1": {"mon1"}, "motor": {"motor", "motor_setpoint"},
-            "motor2": {"motor2", "motor2_setpoint"}, "pdet": {"pdet"}, "amotor": {"amotor", "amotor_setpoint"}, "apdet": {"apdet"}, "fly1": {"fly1_x"}, "fly2": {"fly2_x"}}
+            "motor2": {"motor2", "motor2_setpoint"}, "pdet": {"pdet"}, "amotor": {"amotor", "amotor_setpoint"}, "apdet": {"apdet"}, "fly1": {"fly1_x"}, "fly2": {"fly2_x"}, "npdet": {"npdet"}}
 GROUP_CMDS = ("set", "trigger", "stage", "unstage", "kickoff", "complete", "prepare", "wait")
 ABORT_REASON = "verif: the operator asked for an abort"      # what the harness passes to RE.abort(reason)
 SUS_NAMES = {}     # id(suspender object) -> name, registered by the scenario runner
